@@ -291,9 +291,30 @@ class Machine:
         if isinstance(fnv, Closure):
             return self.call_closure(fnv, args)
         if isinstance(fnv, FnItem):
+            if self.intercept is not None:
+                r = self.intercept(self, fnv.name, [absint.deref(x) for x in args], None, None)
+                if r is not NOT:
+                    return r
             g = self.fb.by_path(fnv.name, self.crate)
             if g is not None:
                 return self.run(g, list(args))
+            if fnv.name.endswith("::to_string") and "ToString" in fnv.name and args:
+                return self.display(absint.deref(args[0]), "")            # `.map(ToString::to_string)`
+            # a tuple-variant / tuple-struct constructor used as a function: `.map(Self::AST)`, `.map(Some)`
+            if "::" in fnv.name:
+                adt_path, vname = fnv.name.rsplit("::", 1)
+                if vname in ("Some", "Ok", "Err") and adt_path.endswith(("Option", "Result")):
+                    return {"Some": some, "Ok": ok, "Err": err}[vname](args[0] if args else UNKNOWN)
+                try:
+                    vs = self.fb.variants(mir.norm(adt_path))
+                except Exception:
+                    vs = None
+                if vs:
+                    for vi, vn in vs:
+                        if vn == vname:
+                            e = Enum(vi, list(args))
+                            e.name, e.adt = vn, mir.norm(adt_path)
+                            return e
             r = self._model(fnv.name, list(args), None, None)
             return UNKNOWN if r is NOT else r
         return UNKNOWN
@@ -620,6 +641,12 @@ class Machine:
             g0 = " ".join(str(x) for x in ((tt.get("fn") or {}).get("generics") or []))
             if "pair::GenericPair<" in g0 and (g0.startswith("parser::pair::GenericPair<") or g0.startswith("std::boxed::Box<parser::pair::GenericPair<")):
                 return copy_spine(a0)
+        if end == "to_string" and "ToString" in c and isinstance(a0, (Enum, list)) and tt is not None:
+            gens = [str(x) for x in (self.subst_generics((tt.get("fn") or {}).get("generics")) or []) if not str(x).startswith("'")]
+            ty = gens[0].replace("&", "").strip() if gens else ""
+            txt = self.display(a0, ty)
+            if isinstance(txt, (str, Text)) and not (isinstance(txt, Text) and len(txt.parts) == 1 and isinstance(txt.parts[0], Hole) and txt.parts[0].value is a0):
+                return txt
         if m("std::ops::Deref>::deref", "std::ops::DerefMut>::deref_mut", "std::ops::Deref::deref", "std::ops::DerefMut::deref_mut",
              "std::convert::AsRef::as_ref", "std::convert::AsMut::as_mut", "std::borrow::Borrow::borrow", "std::clone::Clone::clone", "std::convert::AsRef>::as_ref", "std::convert::AsMut>::as_mut",
              "std::borrow::Borrow>::borrow", "std::borrow::BorrowMut>::borrow_mut", "std::rc::Rc::new", "std::boxed::Box::new",
@@ -892,6 +919,18 @@ class Machine:
             if r is not NOT:
                 return r
         # ---- slices / vectors
+        if end in ("join", "concat") and ("slice::" in c or "str::" in c or "Join" in c) and type(a0) is list:
+            # [String]::join(sep) / concat(): the pieces may be texts with holes
+            sep = a[1] if end == "join" and len(a) > 1 else ""
+            sep = chr(sep) if isinstance(sep, int) and not isinstance(sep, bool) else sep
+            if not isinstance(sep, str) or not all(isinstance(x, (str, Text)) for x in a0):
+                raise Stuck("join of pieces that are not text (%r)" % (a0[:2],))
+            parts = []
+            for i, it in enumerate(a0):
+                if i and sep:
+                    parts.append(sep)
+                parts.append(it)
+            return Text(parts).flat()
         if m("<impl [T]>::len", "Vec::len", "SmallVec::len", "String::len", "<impl str>::len"):
             return len(a0) if isinstance(a0, (list, str)) else UNKNOWN
         if m("HashMap::len", "HashSet::len"):
@@ -1169,6 +1208,15 @@ class Machine:
 
     def _iter_model(self, c, end, a, tt, g):
         a0 = a[0] if a else None
+        if isinstance(a0, Enum) and getattr(a0, "name", None) in ("Range", "RangeInclusive") and len(a0.fields) >= 2 and end in ITER_METHODS \
+                and "Iterator" in c:
+            # a range used as an iterator directly: (0..n).for_each(..), (a..b).map(..)
+            lo, hi = a0.fields[0], a0.fields[1]
+            if all(isinstance(x, int) and not isinstance(x, bool) for x in (lo, hi)) and abs(hi - lo) < 64:
+                a0 = Iter(range(lo, hi + (1 if a0.name == "RangeInclusive" else 0)))
+                a = [a0] + list(a[1:])
+            else:
+                raise Stuck("iteration over a range with unknown bounds")
         if end == "peekable" and (isinstance(a0, (Iter, PeekableIt)) or (isinstance(a0, Enum) and getattr(a0, "adt", None))):
             return a0 if isinstance(a0, PeekableIt) else PeekableIt(a0)
         if isinstance(a0, PeekableIt):
@@ -1244,6 +1292,9 @@ class Machine:
             return none()
         if not isinstance(a0, Iter):
             if end in ITER_METHODS and not (self.fb.by_path(c, self.crate)):
+                if any(isinstance(x, (Closure, FnItem)) for x in a[1:]):
+                    # a closure would have run (possibly with effects on the state we track): do not pretend it did not
+                    raise Stuck("%s over an iterator that cannot be enumerated (%r)" % (end, a0))
                 return UNKNOWN
             return NOT
         if end == "map":
